@@ -55,6 +55,22 @@ EXOTIC = {
 }
 
 
+# how a program goes on to USE the result of each builtin (argument shape "used"): element access, iteration with
+# unpacking, arithmetic, method calls -- whatever the result's type invites
+USE = {"abs": "print(r + 1)", "all": "print(not r)", "any": "print(r and True)", "bool": "print(not r)", "chr": "print(r + 'x', r.upper())",
+       "dict": "r['z'] = 1\nprint(r.keys())", "enumerate": "for i, v in r:\n    print(i + 1, v)\nfor p in enumerate(xs):\n    print(p[0], p[1])",
+       "float": "print(r / 2)", "input": "print(r.upper(), int(r) if r else 0)", "int": "print(r + 1)", "isinstance": "print(not r)",
+       "len": "print(r - 1)", "list": "r.append(1)\nprint(r[0])", "map": "for v in r:\n    print(v)\nprint(list(map(str, xs))[0])",
+       "max": "print(r + 1)", "min": "print(r - 1)", "open": "print(r.read())\nr.close()", "ord": "print(r + 1)", "pow": "print(r * 2)",
+       "print": "print(r is None)", "range": "for i in r:\n    print(i + 1)\nprint(len(r), r[0])", "repr": "print(r.upper())",
+       "reversed": "for v in r:\n    print(v)", "round": "print(r + 1)", "set": "r.add(9)\nprint(len(r))", "sorted": "print(r[0], len(r))",
+       "str": "print(r.upper(), r + 'x')", "sum": "print(r / 2)", "tuple": "print(r[0], len(r))", "type": "print(r)",
+       "zip": "for a, b in r:\n    print(a, b)\nfor p in zip(xs, s):\n    print(p[0], p[1])\n    for q in p:\n        print(q)",
+       "filter": "for v in r:\n    print(v)", "divmod": "print(r[0] + r[1])", "format": "print(r.upper())", "hash": "print(r + 1)",
+       "hex": "print(r.upper())", "bin": "print(r.upper())", "oct": "print(r.upper())", "iter": "print(next(r))", "next": "print(r + 1)",
+       "id": "print(r + 1)"}
+
+
 def indent(text, n=4):
     return "\n".join(" " * n + line if line else line for line in text.split("\n"))
 
@@ -83,6 +99,9 @@ def concretise(cell):
         call = "%s(%s)" % (cell["s"], lit if cell["e"] == "literal" else var)
         if cell["e"] == "nested":
             call = "str(%s(%s))" % (cell["s"], var)
+        if cell["e"] == "used":
+            call = "%s(%s)" % (cell["s"], var)
+            return PRELUDE + in_context("r = %s\n%s" % (call, USE[cell["s"]]), cell["c"]) + "\n"
         body = "r = %s\nprint(r)" % call
         return PRELUDE + in_context(body, cell["c"]) + "\n"
     if k == "method":
